@@ -37,6 +37,7 @@ type clusterSpec struct {
 	objs   []runtime.Object
 	allow  sets.String // user names the fake SubjectAccessReview answers "allowed" for
 	sarErr bool        // the SubjectAccessReview API call itself fails (must be treated as "not authorised")
+	policy *sarPolicy
 }
 
 // sarPolicy is the fake Kubernetes authoriser behind SubjectAccessReview: a review is allowed only if it
@@ -45,6 +46,7 @@ type clusterSpec struct {
 type sarPolicy struct {
 	allow    sets.String
 	apiError bool
+	wrong    string // first review that did not ask "list secrets in the user's namespace" (for the oracle)
 }
 
 func installSAR(cs *fake.Clientset, p *sarPolicy) {
@@ -60,6 +62,11 @@ func installSAR(cs *fake.Clientset, p *sarPolicy) {
 		}
 		ok := ra != nil && a.Spec.NonResourceAttributes == nil && ra.Namespace == userNs && ra.Verb == "list" && ra.Resource == "secrets" &&
 			ra.Group == "" && ra.Name == "" && ra.Subresource == "" && p.allow.Contains(a.Spec.User)
+		exact := ra != nil && a.Spec.NonResourceAttributes == nil && ra.Namespace == userNs && ra.Verb == "list" && ra.Resource == "secrets" &&
+			ra.Group == "" && ra.Name == "" && ra.Subresource == ""
+		if !exact && p.wrong == "" {
+			p.wrong = fmt.Sprintf("user=%s attrs=%v", a.Spec.User, ra)
+		}
 		return true, &authorizationv1.SubjectAccessReview{
 			Status: authorizationv1.SubjectAccessReviewStatus{Allowed: ok, Reason: "verif"},
 		}, nil
@@ -117,7 +124,8 @@ func (s *sdsSUT) start(cfg string) {
 	for _, id := range s.order {
 		sp := s.specs[id]
 		client := kube.NewFakeClient(sp.objs...)
-		installSAR(client.Kube().(*fake.Clientset), &sarPolicy{allow: sp.allow, apiError: sp.sarErr})
+		sp.policy = &sarPolicy{allow: sp.allow, apiError: sp.sarErr}
+		installSAR(client.Kube().(*fake.Clientset), sp.policy)
 		mc.Add(cluster.ID(id), client, s.stop)
 		client.RunAndWait(s.stop)
 	}
@@ -586,6 +594,11 @@ func (s *sdsSUT) oracleGen(f []string) string {
 	g := decGen(f)
 	res, _ := s.generate(s.gen, g)
 	vs := views(res)
+	for _, id := range s.order {
+		if pol := s.specs[id].policy; pol != nil && pol.wrong != "" {
+			return "authorisation-not-decided-by-list-secrets-in-own-namespace " + wire.Enc(pol.wrong)
+		}
+	}
 	if g.vid == nil && len(vs) > 0 {
 		return "released-to-unverified-proxy"
 	}
